@@ -412,6 +412,8 @@ impl<S: BuildHasher + Clone + 'static> SampledLFU<S> {
                     }
                 }
 
+                #[cfg(transparencies_stretto_verif)]
+                crate::verif::policy_cost_update(k, prev_val, cost);
                 self.used += cost - prev_val;
                 *prev = cost;
                 true
